@@ -195,6 +195,13 @@ MatchSegs(style, text, i0, segs) ==
   IF segs = <<>> THEN (IF i > Len(text) THEN "ok" ELSE "trailing-text")
   ELSE LET g == Head(segs) IN
        IF g.t = "lit" THEN (IF HasAt(text, i, g.w) THEN MatchSegs(style, text, i + Len(g.w), Tail(segs)) ELSE "structure")
+       ELSE IF g.t = "str"
+       THEN \* a string literal of the target (g.style: "mysql" or "std") denoting g.value, ending where the next segment starts
+            (IF i > Len(text) \/ text[i] # SQ THEN "not-a-literal"
+             ELSE LET r == Body(g.style, text, i + 1, <<>>) IN
+                  IF ~r.ok THEN "unterminated-literal"
+                  ELSE IF r.val # g.value THEN "wrong-value"
+                  ELSE MatchSegs(style, text, r.end + 1, Tail(segs)))
        ELSE LET r == TPath(style, text, i, "start", <<>>, <<>>) IN
             IF ~r.ok THEN "not-a-path"
             ELSE IF r.parts # g.parts THEN "wrong-parts"
